@@ -4,7 +4,7 @@
    every needle.  With this the whole Two-Way preprocessing that the C03/C04/C12 theorems
    (critical factorisation, maximal suffixes, shift classes) speak about is the source text itself. *)
 From Memchr Require Import Base.Res Base.ListX Gen.Ops Gen.CodeByteSet Gen.CodeSuffix Gen.CodeShift Gen.CodeTwoWayNew
-  Gen.TieByteSet Gen.TieSuffix Gen.TieShift Sub.TwoWay Sub.TwoWayPreProofs.
+  Gen.TieByteSet Gen.TieSuffix Gen.TieShift Sub.TwoWay Sub.TwoWayPreProofs Sub.TwoWayCert Sub.TwoWayTier2 Sub.TwoWayTier2Rev.
 From Coq Require Import Lia ZifyNat ZifyN ZifyBool.
 Local Open Scope N_scope.
 
@@ -99,6 +99,35 @@ Proof.
   destruct (rs_Finder_new _ x); [eexists; reflexivity|contradiction].
 Qed.
 
+(* C03 / C04 / C12 on the translated preprocessing: for EVERY non-empty needle the source text of
+   twoway::Finder::new (FinderRev::new) returns normally and what it computes satisfies the Two-Way
+   certificate (critical position is a critical factorisation, the shift class and value are right, the
+   byte set contains every needle byte), which is the hypothesis under which the search loops are proved
+   to return exactly the leftmost (rightmost) occurrence. *)
+Theorem code_twoway_new_certified (x : list N) :
+  N.of_nat (length x) < 2 ^ 62 -> (1 <= length x)%nat ->
+  exists f, rs_Finder_new (2 * length x + 2) x = Ok f /\ tw_cert_fwd x (tw_of (Finder_0 f)) = true.
+Proof.
+  intros Hbig Hlen. pose proof (tw_cert_fwd_all x Hlen) as C. unfold tw_cert_fwd_of in C.
+  pose proof (tie_twoway_new x Hbig) as T.
+  destruct (fst (tw_new x)) as [tw|p]; [|discriminate].
+  destruct (rs_Finder_new (2 * length x + 2) x) as [f|p]; cbn in T; [|contradiction].
+  exists f. split; [reflexivity|]. rewrite T. exact C.
+Qed.
+
+Theorem code_twoway_new_rev_certified (x : list N) :
+  N.of_nat (length x) < 2 ^ 62 -> (1 <= length x)%nat ->
+  exists f, rs_FinderRev_new (2 * length x + 2) x = Ok f /\ tw_cert_rev x (tw_of (FinderRev_0 f)) = true.
+Proof.
+  intros Hbig Hlen. pose proof (tw_cert_rev_all x Hlen) as C. unfold tw_cert_rev_of in C.
+  pose proof (tie_twoway_new_rev x Hbig) as T.
+  destruct (fst (tw_new_rev x)) as [tw|p]; [|discriminate].
+  destruct (rs_FinderRev_new (2 * length x + 2) x) as [f|p]; cbn in T; [|contradiction].
+  exists f. split; [reflexivity|]. rewrite T. exact C.
+Qed.
+
 Print Assumptions tie_twoway_new.
 Print Assumptions tie_twoway_new_rev.
 Print Assumptions code_twoway_new_never_panics.
+Print Assumptions code_twoway_new_certified.
+Print Assumptions code_twoway_new_rev_certified.
